@@ -152,6 +152,9 @@ func recordExpr(args []string) int {
 		if !add(fmt.Sprint(e["text"]), desc, fmt.Sprint(e["site"])) {
 			return 2
 		}
+		if e["wit"] != nil {
+			addWitness(evs[len(evs)-1])
+		}
 	} else {
 		rng := rand.New(rand.NewSource(*seed))
 		ops := []string{"+", "-", "*", "/", "%"}
